@@ -351,6 +351,15 @@ def tr_expr(cx, env, e):
             parts.append('decide (%s %s %s)' % (left, sym, r))
             left, tl = r, tr_
         return '(' + ' && '.join(parts) + ')', 'bool', pre
+    if (isinstance(e, ast.BoolOp) and isinstance(e.op, ast.Or) and len(e.values) == 2 and isinstance(e.values[0], ast.BoolOp)
+            and isinstance(e.values[0].op, ast.And) and len(e.values[0].values) == 2
+            and isinstance(e.values[0].values[1], ast.Tuple) and e.values[0].values[1].elts and isinstance(e.values[1], ast.Tuple)):
+        # `x and (a, ...) or (b, ...)` with a non-empty (truthy) tuple in the middle: the old spelling of a conditional
+        c, tc, pc = tr_expr(cx, env, e.values[0].values[0])
+        a, ta, pa = tr_expr(cx, env, e.values[0].values[1])
+        b, tb, pb = tr_expr(cx, env, e.values[1])
+        if ta == tb == 'tup' and not pa and not pb:
+            return '(if %s then %s else %s)' % (as_bool(c, tc), a, b), 'tup', pc
     if isinstance(e, ast.BoolOp):
         parts = [tr_expr(cx, env, v) for v in e.values]
         pre = sum((p[2] for p in parts), [])
